@@ -63,12 +63,14 @@ def get_keywords(directory: str = "") -> Registry:
     """Get keyword search functions from a directory"""
     directory = directory or os.path.join(next(iter(multidecoder.__path__)), "keywords")
     keyword_map: Registry = []
-    for subdir, _, files in os.walk(directory):
-        for file_name in files:
+    for subdir, subdirs, files in os.walk(directory):
+        subdirs.sort()  # walk in a fixed order, not in the order the file system lists entries
+        for file_name in sorted(files):
             with open(os.path.join(subdir, file_name), "rb") as keyword_file:
                 keywords = set(keyword_file.read().splitlines())
                 keywords.discard(b"")
             if not keywords:
                 continue
-            keyword_map.append(partial(find_keywords, file_name, keywords))
+            # sorted: set iteration order depends on the hash seed and decides how equal spans nest
+            keyword_map.append(partial(find_keywords, file_name, sorted(keywords)))
     return keyword_map
